@@ -66,13 +66,13 @@ HARNESS = {
 STREAM_SEED = 20261003
 def _n(env, default): return int(os.environ.get(env, default))
 NATIVE = {
-    'stream': {'enum': 'stream_oracle::enumerate', 'check': 'stream_oracle::check_stream(c)', 'n': _n('VERIF_STREAM_CASES', '150000'),
+    'stream': {'panic_props': ['C07', 'C17', 'C18', 'C05'], 'enum': 'stream_oracle::enumerate', 'check': 'stream_oracle::check_stream(c)', 'n': _n('VERIF_STREAM_CASES', '150000'),
                'family': 'ELF64/LE files of <= 490 bytes from kani/replay_src/stream_oracle.rs::enumerate: 0-3 section headers, 0-1 program header, numbering escapes, bad links/names/sizes, truncation, one injected I/O fault'},
-    'c20n': {'enum': 'stream_oracle::enumerate', 'check': 'slice_oracle::check_c20_file(&c.file[..c.cut.min(c.file.len())])', 'n': _n('VERIF_STREAM_CASES', '150000'),
+    'c20n': {'panic_props': ['C20', 'C01'], 'enum': 'stream_oracle::enumerate', 'check': 'slice_oracle::check_c20_file(&c.file[..c.cut.min(c.file.len())])', 'n': _n('VERIF_STREAM_CASES', '150000'),
              'family': 'the same ELF64/LE files as the stream oracle, through the slice parser: by-name lookup against a manual scan, typed views against section_data, find_common_data against the targeted accessors'},
-    'hashn': {'enum': 'slice_oracle::enumerate_hash', 'check': 'slice_oracle::check_hash_tables(c)', 'n': _n('VERIF_HASH_CASES', '200000'),
+    'hashn': {'panic_props': ['C11', 'C12', 'C01'], 'enum': 'slice_oracle::enumerate_hash', 'check': 'slice_oracle::check_hash_tables(c)', 'n': _n('VERIF_HASH_CASES', '200000'),
               'family': '.hash and .gnu.hash sections BUILT per the gABI / GNU format by an independent builder for 0-8 symbols (duplicates, non-UTF-8 names), 1-8 buckets, 1-4 bloom words, shifts 0-31, both classes and byte orders, optionally one corrupted byte; every present name must be found, every absent name give None, every answer be sound'},
-    'c05n': {'enum': 'stream_oracle::enumerate', 'check': 'slice_oracle::check_c05_file(&c.file[..c.cut.min(c.file.len())])', 'n': _n('VERIF_STREAM_CASES', '150000'),
+    'c05n': {'panic_props': ['C05', 'C01'], 'enum': 'stream_oracle::enumerate', 'check': 'slice_oracle::check_c05_file(&c.file[..c.cut.min(c.file.len())])', 'n': _n('VERIF_STREAM_CASES', '150000'),
              'family': 'the ELF64/LE files of the stream oracle: header tables against an independent decode of e_shoff/e_shnum/e_phoff/e_phnum with the extended-numbering rules; open fails iff an entry size is wrong or a table does not fit'},
     'c04n': {'tags': ['C04'], 'enum': 'byte_families::fam_c04', 'check': 'byte_families::run_c04(c)', 'n': 400000, 'family': 'buffers <= 12 bytes, offsets inside/at/past the end and near usize::MAX, six readers x four byte-order specifications'},
     'c15n': {'tags': ['C15'], 'enum': 'byte_families::fam_c15', 'check': 'byte_families::run_c15(c)', 'n': 400000, 'family': 'string tables <= 10 bytes over {NUL, ASCII, invalid UTF-8}: get_raw and get'},
@@ -82,8 +82,8 @@ NATIVE = {
     'c03n': {'tags': ['C03'], 'enum': 'byte_families::fam_c03', 'check': 'byte_families::run_c03(c)', 'n': 50000, 'family': 'section / segment ranges around the boundaries of a 60-byte file and around u64 overflow'},
     'c13i': {'tags': ['C13', 'C16'], 'enum': 'byte_families::fam_c13i', 'check': 'byte_families::run_c13i(c)', 'n': 300000, 'family': 'structured version sections iterated from several offsets and counts (three records each)'},
     'c02n': {'tags': ['C02'], 'enum': 'byte_families::fam_c02', 'check': 'run_c02(c)', 'n': 600000, 'family': 'every ABI structure decoded from buffers <= 80 bytes at offsets 0..8 and past the end, both classes and byte orders, against the layout table'},
-    'c16n': {'tags': ['C16'], 'enum': 'term_oracle::enumerate_term', 'check': 'term_oracle::check_term(c)', 'n': 140000, 'family': 'adversarial link structures of < 300 bytes: SysV chains with cycles / self-loops / out-of-range links, GNU chains without stop bit, VerNeed / VerDef records with next = 0 / overlapping / huge and counts up to u64::MAX, random notes and entry tables; clauses: returns within 3 s, at most one item per byte, at most the declared count'},
-    'c13n': {'enum': 'slice_oracle::enumerate_symver', 'check': 'slice_oracle::check_symver(c)', 'n': _n('VERIF_SYMVER_CASES', '300000'),
+    'c16n': {'tags': ['C16'], 'panic_props': ['C01'], 'enum': 'term_oracle::enumerate_term', 'check': 'term_oracle::check_term(c)', 'n': 140000, 'family': 'adversarial link structures of < 300 bytes: SysV chains with cycles / self-loops / out-of-range links, GNU chains without stop bit, VerNeed / VerDef records with next = 0 / overlapping / huge and counts up to u64::MAX, random notes and entry tables; clauses: returns within 3 s, at most one item per byte, at most the declared count'},
+    'c13n': {'panic_props': ['C13', 'C01'], 'enum': 'slice_oracle::enumerate_symver', 'check': 'slice_oracle::check_symver(c)', 'n': _n('VERIF_SYMVER_CASES', '300000'),
              'family': 'version sections from kani/replay_src/slice_oracle.rs::enumerate_symver: 1-4 versym entries, 0-3 verneed records with one auxiliary record each, 0-3 verdef records, forward/zero/out-of-range links, hidden bits, unreadable strings; get_requirement/get_definition against a reference resolution'},
 }
 for _k, _v in NATIVE.items(): _v['bound'] = '%d pseudo-random cases (seed %d): %s; native enumeration, not Kani' % (_v['n'], STREAM_SEED, _v['family'])
@@ -243,14 +243,18 @@ def search_native(harness, timeout=420, tmp_shared=None, prop=None):
         os.makedirs(os.path.join(tmp, 'src', 'bin'), exist_ok=True)
         open(os.path.join(tmp, 'src', 'bin', 'native_search.rs'), 'w').write('''use elf_verif_replay::*;
 const TAGS: &[&str] = &[%s];
+const PANIC_PROPS: &[&str] = &[%s];
 fn main() {
     let p = std::env::var("VERIF_ORACLE_PROP").unwrap_or_default();
     for (i, c) in %s(%d, %d).iter().enumerate() {
         let msg = match guarded(|| %s) { Ok(()) => continue, Err(e) => e };
         // a family serves the properties it is tagged with (or, untagged, tags each message itself): only failures of the
         // property being checked count; a panic INSIDE the crate under test counts for every property
-        if !p.is_empty() && !msg.starts_with("PANIC") {
-            let mine = if TAGS.is_empty() { msg.starts_with(&format!("{}:", p)) } else { TAGS.contains(&p.as_str()) };
+        if !p.is_empty() {
+            // a panic raised inside the crate counts for C01 (slice-parser families) and for the properties whose calls the
+            // family makes (PANIC_PROPS) -- not for a property that merely shares the family
+            let mine = if msg.starts_with("PANIC") { PANIC_PROPS.contains(&p.as_str()) }
+                       else if TAGS.is_empty() { msg.starts_with(&format!("{}:", p)) } else { TAGS.contains(&p.as_str()) };
             if !mine { continue; }
         }
         println!("FOUND {}", i);
@@ -260,7 +264,7 @@ fn main() {
     }
     println!("NONE");
 }
-''' % (', '.join('"%s"' % t for t in nv.get('tags', [])), nv['enum'], nv['n'], STREAM_SEED, nv['check']))
+''' % (', '.join('"%s"' % t for t in nv.get('tags', [])), ', '.join('"%s"' % t for t in nv.get('panic_props', [t_ for t_ in nv.get('tags', []) if t_ != 'C16'] + ['C01'])), nv['enum'], nv['n'], STREAM_SEED, nv['check']))
         # optimised, but WITH overflow checks and debug assertions: an arithmetic overflow must panic as it does in a debug build (C01)
         env = dict(os.environ, CARGO_NET_OFFLINE='true', CARGO_TARGET_DIR=os.path.join(tmp, 'target'), RUSTFLAGS='-Awarnings -C overflow-checks=on -C debug-assertions=on', VERIF_ORACLE_PROP=prop or '')
         t0 = time.time()
